@@ -462,11 +462,14 @@ Proof.
   - intros w0 Hn. rewrite E6. unfold updf. destruct (Nat.eqb_spec w0 w); subst; [lia | auto].
 Qed.
 
+Lemma some_eq {A} (a b : A) : Some a = Some b -> a = b.
+Proof. congruence. Qed.
+
 Lemma InvB_wstep c s t w aux s' :
   InvB c s -> w < c_n c -> wstep c t w aux s = Some s' -> InvB c s'.
 Proof.
   intros H Hw. unfold wstep. destruct (wk s w) as [slow | sg | r slow |] eqn:Epc.
-  - destruct (is_free (gmutex s)); [|discriminate]. intros [= <-].
+  - destruct (is_free (gmutex s)); [|discriminate]. intros E; apply some_eq in E; subst s'.
     apply InvB_wloop; [| exact Hw | cbn; apply updf_same].
     destruct slow.
     + assert (1 <= running s) as Hpos.
@@ -484,7 +487,7 @@ Proof.
       * discriminate.
       * discriminate.
   - destruct ((sg || (aux =? 1)) && is_free (gmutex s)); [|discriminate].
-    intros [= <-].
+    intros E; apply some_eq in E; subst s'.
     apply InvB_wloop; [| exact Hw | cbn; apply updf_same].
     assert (1 <= idle s) as Hpos.
     { destruct H. rewrite b_idle. apply (countw_pos wait_pc (c_n c) (wk s) w Hw). rewrite Epc. reflexivity. }
@@ -494,7 +497,7 @@ Proof.
     + lia.
     + discriminate.
     + discriminate.
-  - intros [= <-]. unfold complete.
+  - intros E; apply some_eq in E; subst s'. unfold complete.
     eapply (InvB_worker_set c s _ w (WRelock slow) H Hw); cbn; try reflexivity; rewrite ?Epc; cbn.
     + intros r0. unfold updf.
       destruct (Nat.eqb_spec r0 r); subst; cbn; [|destruct (Nat.eqb_spec r0 r); subst; cbn; congruence].
@@ -506,3 +509,278 @@ Proof.
     + discriminate.
   - discriminate.
 Qed.
+
+Ltac sBe :=
+  repeat first
+    [ eapply sameB_trans; [| apply sameB_advance]
+    | eapply sameB_trans; [| apply sameB_deliver]
+    | eapply sameB_trans; [| apply sameB_settle]
+    | eapply sameB_trans; [| apply sameB_emit]
+    | eapply sameB_trans; [| apply sameB_sync]
+    | eapply sameB_trans; [| apply sameB_set_loop]
+    | eapply sameB_trans; [| apply sameB_set_gmutex]
+    | eapply sameB_trans; [| apply sameB_set_rst]
+    | eapply sameB_trans; [| apply sameB_set_rwork] ];
+  apply sameB_refl.
+
+(* uv__work_cancel unlinks r *)
+Lemma InvB_remove c s r :
+  InvB c s -> InvB c (set_sp (set_wq s (remw r (wq s))) (rem r (sp s))).
+Proof.
+  intros H. destruct H. constructor; cbn; auto.
+  - rewrite count_marker_remw. exact b_marker.
+  - intros K. rewrite has_marker_remw. apply b_sp_marker. intros E. rewrite E in K. apply K. reflexivity.
+  - intros K. apply b_noexit. eapply In_remw. exact K.
+  - intros r0 [K | K]; apply b_lt; [left; eapply In_remw | right; eapply In_rem]; exact K.
+  - intros r0 K. apply b_kind_wq. eapply In_remw. exact K.
+  - intros r0 K. apply b_kind_sp. eapply In_rem. exact K.
+Qed.
+
+(* uv__work_submit: the new request nreq s of kind k is linked *)
+Lemma InvB_enqueue c s l k (s' : state) :
+  InvB c s ->
+  wk s' = wk s -> running s' = running s -> idle s' = idle s -> nreq s' = S (nreq s) ->
+  reqs s' = updf (reqs s) (nreq s) (mkReq l k WFn Queued) ->
+  match k with
+  | KSlow => sp s' = sp s ++ [nreq s] /\
+             wq s' = (if has_marker (wq s) then wq s else wq s ++ [ISlowMsg])
+  | _ => sp s' = sp s /\ wq s' = wq s ++ [IWork (nreq s)]
+  end ->
+  InvB c s'.
+Proof.
+  intros H Ewk Erun Eidle En Ereqs Hq.
+  assert (forall r0, r0 < nreq s -> r_kind (reqs s' r0) = r_kind (reqs s r0)) as Hk.
+  { intros r0 Hr. rewrite Ereqs. unfold updf. destruct (Nat.eqb_spec r0 (nreq s)); [lia | reflexivity]. }
+  assert (r_kind (reqs s' (nreq s)) = k) as Hk2.
+  { rewrite Ereqs. unfold updf. rewrite Nat.eqb_refl. reflexivity. }
+  assert (sp s' = sp s /\ wq s' = wq s ++ [IWork (nreq s)] /\ k <> KSlow \/
+          k = KSlow /\ sp s' = sp s ++ [nreq s] /\
+          wq s' = (if has_marker (wq s) then wq s else wq s ++ [ISlowMsg])) as Hq'.
+  { destruct k; [left | left | right]; intuition; discriminate. }
+  clear Hq. destruct H.
+  constructor; rewrite ?Ewk, ?Erun, ?Eidle, ?En; auto.
+  - destruct Hq' as [(_ & -> & _) | (_ & _ & ->)].
+    + rewrite filter_marker_app. cbn. lia.
+    + destruct (has_marker (wq s)) eqn:E; [exact b_marker|].
+      rewrite filter_marker_app, (has_marker_false_count _ E). cbn. lia.
+  - destruct Hq' as [(-> & -> & _) | (_ & _ & ->)].
+    + intros K. rewrite has_marker_app. rewrite (b_sp_marker K). reflexivity.
+    + intros _. destruct (has_marker (wq s)) eqn:E; [exact E|].
+      rewrite has_marker_app. cbn. apply orb_true_r.
+  - destruct Hq' as [(_ & -> & _) | (_ & _ & ->)].
+    + intros K. apply in_app_or in K. destruct K as [K | [K | []]]; [auto | discriminate].
+    + destruct (has_marker (wq s)); [exact b_noexit|].
+      intros K. apply in_app_or in K. destruct K as [K | [K | []]]; [auto | discriminate].
+  - intros r0 K.
+    assert (In (IWork r0) (wq s) \/ In r0 (sp s) \/ r0 = nreq s) as K'.
+    { destruct Hq' as [(E1 & E2 & _) | (_ & E1 & E2)]; rewrite E1, E2 in K.
+      - destruct K as [K | K]; [|tauto]. apply in_app_or in K.
+        destruct K as [K | [K | []]]; [tauto|]. inversion K. tauto.
+      - destruct K as [K | K].
+        + destruct (has_marker (wq s)); [tauto|]. apply in_app_or in K.
+          destruct K as [K | [K | []]]; [tauto | discriminate].
+        + apply in_app_or in K. destruct K as [K | [K | []]]; [tauto | subst; tauto]. }
+    destruct K' as [K' | [K' | ->]]; [| | lia].
+    + specialize (b_lt r0 (or_introl K')). lia.
+    + specialize (b_lt r0 (or_intror K')). lia.
+  - intros r0 K.
+    destruct Hq' as [(_ & E2 & Hns) | (_ & _ & E2)]; rewrite E2 in K.
+    + apply in_app_or in K. destruct K as [K | [K | []]].
+      * rewrite Hk; [auto | apply b_lt; tauto].
+      * assert (r0 = nreq s) as -> by congruence. rewrite Hk2. exact Hns.
+    + assert (In (IWork r0) (wq s)) as K'.
+      { destruct (has_marker (wq s)); [exact K|]. apply in_app_or in K.
+        destruct K as [K | [K | []]]; [exact K | discriminate]. }
+      rewrite Hk; [auto | apply b_lt; tauto].
+  - intros r0 K.
+    destruct Hq' as [(E1 & _ & _) | (Hs & E1 & _)]; rewrite E1 in K.
+    + rewrite Hk; [auto | apply b_lt; tauto].
+    + apply in_app_or in K. destruct K as [K | [K | []]].
+      * rewrite Hk; [auto | apply b_lt; tauto].
+      * subst r0. rewrite Hk2. exact Hs.
+  - intros w r0 b K. destruct (b_run_lt w r0 b K) as [K1 K2]. split; [lia|].
+    rewrite Hk; auto.
+Qed.
+
+Lemma InvB_post c s l aux k x :
+  InvB c s ->
+  InvB c (post c l aux (nreq s) k
+            (set_loop (set_req (set_nreq (emit s (ESubmit (nreq s) l k)) (S (nreq s))) (nreq s)
+                               (mkReq l k WFn Queued)) l x)).
+Proof.
+  intros H. unfold post. destruct k.
+  - eapply InvB_sameB; [| apply sameB_sync]. apply InvB_signal_if_idle.
+    eapply (InvB_enqueue c s l KCpu _ H); cbn; auto.
+  - eapply InvB_sameB; [| apply sameB_sync]. apply InvB_signal_if_idle.
+    eapply (InvB_enqueue c s l KFast _ H); cbn; auto.
+  - cbn [sync_ev emit set_sp wq sp]. 
+    match goal with |- context [has_marker ?q] => change q with (wq s) end.
+    destruct (has_marker (wq s)) eqn:E.
+    + eapply InvB_sameB; [| apply sameB_emit].
+      eapply (InvB_enqueue c s l KSlow _ H); cbn; auto. rewrite E. auto.
+    + eapply InvB_sameB; [| apply sameB_emit]. apply InvB_signal_if_idle.
+      eapply (InvB_enqueue c s l KSlow _ H); cbn; auto. rewrite E. auto.
+Qed.
+
+Lemma InvB_lstep c s l aux s' :
+  InvB c s -> lstep c l aux s = Some s' -> InvB c s'.
+Proof.
+  intros H. unfold lstep.
+  destruct (l_pc (lp s l)) as [| r | r | | |] eqn:Epc.
+  - destruct (cur_op (lp s l)) as [[k | r |]|]; [| | |discriminate].
+    + destruct (is_free (gmutex s)); [|discriminate].
+      intros E; apply some_eq in E; subst s'.
+      eapply InvB_sameB; [| apply sameB_advance]. apply InvB_post. exact H.
+    + destruct (valid_cancel s l r).
+      * destruct (is_free (gmutex s)); [|discriminate].
+        intros E; apply some_eq in E; subst s'. eapply InvB_sameB; [exact H | sBe].
+      * intros E; apply some_eq in E; subst s'. eapply InvB_sameB; [exact H | sBe].
+    + destruct (l_cb (lp s l)).
+      * destruct (l_active (lp s l) =? 0); [| destruct (l_pending (lp s l))];
+          intros E; apply some_eq in E; subst s'; (eapply InvB_sameB; [exact H | sBe]).
+      * intros E; apply some_eq in E; subst s'. eapply InvB_sameB; [exact H | sBe].
+  - match goal with |- context [if ?b then _ else _] => destruct b eqn:Ec end;
+      intros E; apply some_eq in E; subst s'.
+    + eapply InvB_sameB; [| sBe]. apply (InvB_remove c (sync_ev s l (SLockQ l)) r).
+      eapply InvB_sameB; [exact H | sBe].
+    + eapply InvB_sameB; [exact H | sBe].
+  - intros E; apply some_eq in E; subst s'. eapply InvB_sameB; [exact H | sBe].
+  - intros E; apply some_eq in E; subst s'. eapply InvB_sameB; [exact H | sBe].
+  - destruct (l_pending (lp s l)); [|discriminate].
+    intros E; apply some_eq in E; subst s'. eapply InvB_sameB; [exact H | sBe].
+  - discriminate.
+Qed.
+
+Lemma InvB_step c s t aux s' : InvB c s -> step c s t aux = Some s' -> InvB c s'.
+Proof.
+  intros H. unfold step. destruct (t <? c_loops c).
+  - apply InvB_lstep. exact H.
+  - destruct (t - c_loops c <? c_n c) eqn:E; [|discriminate].
+    apply Nat.ltb_lt in E. apply InvB_wstep; assumption.
+Qed.
+
+Theorem invB_reachable : forall c progs s, reachable c progs s -> InvB c s.
+Proof.
+  intros c progs. apply reachable_ind.
+  - apply InvB_init.
+  - intros s t aux s' _ H E. eapply InvB_step; eauto.
+Qed.
+
+Lemma threshold_lt : forall n, 2 <= n -> threshold n < n.
+Proof. intros n H. unfold threshold. apply Nat.div_lt_upper_bound; lia. Qed.
+
+Lemma threshold_pos : forall n, 1 <= n -> 1 <= threshold n.
+Proof. intros n H. unfold threshold. apply Nat.div_le_lower_bound; lia. Qed.
+
+(* ---- a worker that finds non-slow work queued always leaves with a request ---- *)
+Lemma wstep_prefix c s t w aux s' :
+  InvB c s -> w < c_n c ->
+  (exists b, wk s w = WRelock b) \/ (exists sg, wk s w = WWait sg) ->
+  wstep c t w aux s = Some s' ->
+  exists s2, s' = wloop wloop_fuel c t w aux s2 /\ InvB c s2 /\ wk s2 w = WRelock false /\
+             wq s2 = wq s /\ sp s2 = sp s /\ reqs s2 = reqs s.
+Proof.
+  intros H Hw Hpc. unfold wstep. destruct Hpc as [[slow Epc] | [sg Epc]]; rewrite Epc.
+  - destruct (is_free (gmutex s)); [|discriminate]. intros E; apply some_eq in E; subst s'.
+    eexists. split; [reflexivity|]. split; [| split; [cbn; apply updf_same | split; [| split]]].
+    + destruct slow.
+      * assert (1 <= running s) as Hpos.
+        { destruct H. rewrite b_running. apply (countw_pos slow_pc (c_n c) (wk s) w Hw). rewrite Epc. reflexivity. }
+        eapply (InvB_worker_set c s _ w (WRelock false) H Hw); cbn; try reflexivity; rewrite ?Epc; cbn;
+          try discriminate; try lia. destruct H. lia.
+      * eapply (InvB_worker_set c s _ w (WRelock false) H Hw); cbn; try reflexivity; rewrite ?Epc; cbn;
+          try discriminate; try lia. destruct H. lia.
+    + destruct slow; reflexivity.
+    + destruct slow; reflexivity.
+    + destruct slow; reflexivity.
+  - destruct ((sg || (aux =? 1)) && is_free (gmutex s)); [|discriminate].
+    intros E; apply some_eq in E; subst s'.
+    eexists. split; [reflexivity|]. split; [| split; [cbn; apply updf_same | split; [| split]]]; try reflexivity.
+    assert (1 <= idle s) as Hpos.
+    { destruct H. rewrite b_idle. apply (countw_pos wait_pc (c_n c) (wk s) w Hw). rewrite Epc. reflexivity. }
+    eapply (InvB_worker_set c s _ w (WRelock false) H Hw); cbn; try reflexivity; rewrite ?Epc; cbn;
+      try discriminate; try lia. destruct H. lia.
+Qed.
+
+Lemma head_is_work (q : list item) r :
+  In (IWork r) q -> length (filter is_marker q) = 0 -> ~ In IExit q ->
+  exists r0 rest, q = IWork r0 :: rest.
+Proof.
+  destruct q as [|[r0| |] rest]; cbn; intros Hin Hm Hx.
+  - destruct Hin.
+  - eauto.
+  - discriminate.
+  - exfalso. apply Hx. left. reflexivity.
+Qed.
+
+Lemma wait_pred_work c s r0 rest : wq s = IWork r0 :: rest -> wait_pred c s = false.
+Proof. unfold wait_pred. intros ->. reflexivity. Qed.
+
+Lemma wloop_takes c t w aux s fuel r :
+  InvB c s -> In (IWork r) (wq s) ->
+  exists r' b', wk (wloop (S (S fuel)) c t w aux s) w = WRun r' b' /\
+    (b' = false -> In (IWork r') (wq s)) /\
+    (b' = true -> In r' (sp s) /\ running s < threshold (c_n c)).
+Proof.
+  intros H Hin. pose proof H as H'. destruct H'.
+  destruct (wq s) as [|[r0| |] rest] eqn:Eq.
+  - destruct Hin.
+  - (* head is work *)
+    cbn [wloop]. rewrite (wait_pred_work c s r0 rest Eq). rewrite Eq.
+    exists r0, false. split; [cbn; apply updf_same | split; [intros _; left; reflexivity | discriminate]].
+  - (* head is the marker *)
+    assert (In (IWork r) rest) as Hin' by (destruct Hin as [K|K]; [discriminate | exact K]).
+    pose proof (marker_head_rest rest b_marker) as Hm0.
+    assert (~ In IExit rest) as Hx by (intros K; apply b_noexit; right; exact K).
+    destruct (head_is_work rest r Hin' Hm0 Hx) as (r0 & rest' & Erest).
+    cbn [wloop].
+    assert (wait_pred c s = false) as Ewp.
+    { unfold wait_pred. rewrite Eq, Erest. reflexivity. }
+    rewrite Ewp, Eq.
+    destruct (threshold (c_n c) <=? running s) eqn:Eth.
+    + (* re-queue the marker, take the next item *)
+      cbn [wloop].
+      assert (wait_pred c (set_wq s (rest ++ [ISlowMsg])) = false) as Ewp2.
+      { unfold wait_pred. cbn [set_wq wq]. rewrite Erest. cbn. reflexivity. }
+      rewrite Ewp2. cbn [set_wq wq]. rewrite Erest. cbn [app].
+      exists r0, false. split; [cbn; apply updf_same | split; [| discriminate]].
+      intros _. right. left. reflexivity.
+    + destruct (sp s) as [|r1 sp'] eqn:Esp.
+      * cbn [wloop].
+        assert (wait_pred c (set_wq s rest) = false) as Ewp2.
+        { unfold wait_pred. cbn [set_wq wq]. rewrite Erest. reflexivity. }
+        rewrite Ewp2. cbn [set_wq wq]. rewrite Erest.
+        exists r0, false. split; [cbn; apply updf_same | split; [| discriminate]].
+        intros _. right. left. reflexivity.
+      * exists r1, true. split; [cbn; apply updf_same | split; [discriminate|]].
+        intros _. split; [left; reflexivity | apply Nat.leb_gt; exact Eth].
+  - exfalso. apply b_noexit. left. reflexivity.
+Qed.
+
+Theorem worker_takes_when_work_queued :
+  forall c progs s t aux s' w r,
+    reachable c progs s ->
+    c_loops c <= t -> w = t - c_loops c -> w < c_n c ->
+    (exists b, wk s w = WRelock b) \/ (exists sg, wk s w = WWait sg) ->
+    In (IWork r) (wq s) ->
+    step c s t aux = Some s' ->
+    exists r' b', wk s' w = WRun r' b' /\
+      (b' = false -> In (IWork r') (wq s) /\ r_kind (reqs s r') <> KSlow) /\
+      (b' = true -> In r' (sp s) /\ r_kind (reqs s r') = KSlow).
+Proof.
+  intros c progs s t aux s' w r Hr Ht Ew Hw Hpc Hin Hstep.
+  pose proof (invB_reachable c progs s Hr) as H.
+  unfold step in Hstep.
+  destruct (t <? c_loops c) eqn:E1; [apply Nat.ltb_lt in E1; lia|].
+  rewrite <- Ew in Hstep.
+  destruct (w <? c_n c) eqn:E2; [| apply Nat.ltb_ge in E2; lia].
+  destruct (wstep_prefix c s t w aux s' H Hw Hpc Hstep) as (s2 & -> & H2 & Hpc2 & Eq & Esp & Er).
+  rewrite <- Eq in Hin.
+  destruct (wloop_takes c t w aux s2 1 r H2 Hin) as (r' & b' & K1 & K2 & K3).
+  exists r', b'. split; [exact K1|]. destruct H. split.
+  - intros Hb. specialize (K2 Hb). rewrite Eq in K2. split; [exact K2 | apply b_kind_wq; exact K2].
+  - intros Hb. destruct (K3 Hb) as [K4 _]. rewrite Esp in K4. split; [exact K4 | apply b_kind_sp; exact K4].
+Qed.
+
+Print Assumptions invB_reachable.
+Print Assumptions worker_takes_when_work_queued.
